@@ -4,11 +4,13 @@
     returns is the first-maximum (utils.argmax: replace only on strictly greater, so the FIRST arm in arm-list
     order among ties) of exactly the dictionaries predict_expectations returns from the same state and the same
     generator position, and both calls leave the same state behind.
+    Under the order laws (NumLaws: a total order on the numbers): the key utils.argmax returns attains the maximum
+    of the dictionary, and every key listed before it holds a strictly smaller value (first among ties).
     ..._partial: for linear and neighbourhood policies the same definitional structure is in the model
     (imp_query computes predictions from the expectation rows) and is compared with the implementation by the
     deep-copy twin relation; TreeBandit + EpsilonGreedy(epsilon>0) is excluded by the property. *)
-From Coq Require Import List ZArith Bool Arith QArith Qcanon.
-From MW Require Import Num Assoc AssocFacts Rng Par CF CFInv CFClean CFForget CFSpec Matrix Lin Warm WarmInv Nbr NbrFacts NbrIndep Clu Tree Mab FacadeCF FacadeArms NumLaws QcInst.
+From Coq Require Import List ZArith Bool Arith QArith Qcanon Permutation.
+From MW Require Import Num Assoc AssocFacts Rng Par CF CFInv CFClean CFForget CFSpec Matrix Lin Warm WarmInv Nbr NbrFacts NbrIndep LshFacts Clu Tree CellFacts Mab FacadeCF FacadeArms MoreFacts NumLaws CFAlg Sim Extra QcInst OrderFacts ExpIrrel LinInv FacadeLin LpInv NbrInv CluTreeInv FacadeAll ToyFacts.
 Import ListNotations.
 
 Theorem C09_predict_is_first_argmax_of_expectations_partial :
@@ -25,5 +27,23 @@ Theorem C09_argmax_is_a_key :
   d <> [] -> exists a : A, argmax_first N d = Some a /\ In a (akeys d).
 Proof. exact @argmax_first_in. Qed.
 Print Assumptions C09_argmax_is_a_key.
+
+Theorem C09_argmax_attains_the_maximum :
+  forall (R A : Type) (N : Num R),
+  NumLaws N ->
+  forall (d : list (A * R)) (a : A),
+  argmax_first N d = Some a ->
+  exists v : R, In (a, v) d /\ (forall kv : A * R, In kv d -> leb N (snd kv) v = true).
+Proof. exact @argmax_first_is_maximal. Qed.
+Print Assumptions C09_argmax_attains_the_maximum.
+
+Theorem C09_ties_go_to_the_first_arm :
+  forall (R A : Type) (N : Num R),
+  NumLaws N ->
+  forall (h : A * R) (t : list (A * R)),
+  (forall kv : A * R, In kv t -> leb N (snd kv) (snd h) = true) ->
+  argmax_first N (h :: t) = Some (fst h).
+Proof. exact @argmax_first_ties_go_to_the_first_key. Qed.
+Print Assumptions C09_ties_go_to_the_first_arm.
 
 
